@@ -63,6 +63,11 @@ pub struct Config {
     /// consecutive choices, a non-zero byte for one. Lets a short, shrinkable schedule place its
     /// preemptions anywhere in a run of thousands of points (0 and 1 mean no stretching).
     pub stretch: u8,
+    /// hold directive `(thread, k, steps)`: right after the thread's k-th load that returned a
+    /// pointer-like value (>= 2^32) it is not scheduled for the next `steps` steps while any other
+    /// thread can run. Places a long pause exactly between "pointer obtained" and "pointer used" -
+    /// the window every publish/reclaim scheme has to get right.
+    pub hold: Option<(usize, u32, u32)>,
 }
 
 impl Default for Config {
@@ -77,6 +82,7 @@ impl Default for Config {
             script: vec![],
             abort_on_cell_race: true,
             stretch: 1,
+            hold: None,
         }
     }
 }
@@ -168,6 +174,8 @@ struct Th {
     class_points: [u32; 5],
     floor: HashMap<usize, usize>,
     spurious_in_row: u32,
+    ptr_loads: u32,
+    held_until: u64,
 }
 
 struct StoreRec {
@@ -442,7 +450,7 @@ impl State {
             let i = (me + k) % n;
             let t = &self.threads[i];
             if matches!(t.status, Status::Runnable | Status::NotStarted) {
-                if t.yielded {
+                if t.yielded || t.held_until > self.step {
                     late.push(i);
                 } else {
                     cands.push(i);
@@ -527,6 +535,8 @@ impl Exec {
             .map(|_| Th {
                 status: Status::NotStarted,
                 yielded: false,
+                ptr_loads: 0,
+                held_until: 0,
                 vc: [0; MAX_THREADS],
                 depth: 0,
                 points: 0,
@@ -797,6 +807,15 @@ impl Exec {
                 }
                 if has_acq(op.success) {
                     vc_join(&mut st.threads[me].vc, &rel);
+                }
+                if val >= (1u64 << 32) && st.threads[me].depth == 0 {
+                    st.threads[me].ptr_loads += 1;
+                    if let Some((t, k, steps)) = st.cfg.hold {
+                        if t == me && st.threads[me].ptr_loads == k {
+                            st.threads[me].held_until = st.step + steps as u64;
+                            st.rec(me as i32, Item::Mark { name: "held-after-pointer-load", a: k as i64, b: steps as i64 });
+                        }
+                    }
                 }
                 result = (val, val, true);
             }
